@@ -55,7 +55,8 @@ def diag_of(S, e):
 def check(run):
     S = tc.Setup()
     run.functions += ['validation::check_methods and its per-method closure (%s)' % src_line('src/validation.rs', 'fn check_methods'), 'traverse::walk_methods']
-    run.bounds += ['one inductive step from an arbitrary pre-state (abstract maps, symbolic markers) with one arbitrary method: covers method sequences of any length']
+    run.bounds += ['one inductive step from an arbitrary pre-state (abstract maps, symbolic markers) with one arbitrary method: covers method sequences of any length',
+                   'independently: check_methods executed as a whole on interfaces of exactly 1..3 (4 thorough) methods, symbolic names and codes, every equality pattern']
     run.outside += ['std HashMap itself (get / insert / entry / is_empty are modelled by their documented meaning)', 'the wording of the messages',
                     'which range the `mixed` Error points back to (the statement does not say)', 'parsing of the transact code into u32 (grammar action)']
     run.assumptions += ['invariant assumed on the pre-state and shown to be preserved: the code map is non-empty exactly when a method with a code has been seen',
@@ -69,7 +70,8 @@ def check(run):
         return
     need = ['diagnostics', 'method_names', 'first_method_with_id', 'first_method_without_id', 'method_ids']
     if sorted(order) != sorted(need):
-        run.inconclusive('closure layout', 'T', 'captured variables are %s (the step encoding expects %s)' % (order, need))
+        # the function keeps its state differently: the inductive step does not apply; fall back to bounded execution of the whole function
+        bounded_obligations(run, S, (1, 2, 3, 4) if run.tier == 'thorough' else (1, 2, 3), 'the per-method state is kept as %s: inductive step not applicable, bounded execution instead' % order)
         return
     cl = [g for g in S.prog.fns if re.search(r'(^|::)check_methods::\{closure#0\}$', g.name)]
     if len(cl) != 1:
@@ -185,6 +187,145 @@ def check(run):
         run.holds('check_methods starts from empty maps and unset markers and folds its closure over walk_methods', 'T', bound='MIR of check_methods')
     else:
         run.inconclusive('initial state of check_methods', 'T', 'expected two HashMap::new, two None markers and a walk_methods call')
+    bounded_obligations(run, S, (1, 2, 3, 4) if run.tier == 'thorough' else (1, 2, 3), None)
     ok, n, detail = tc.outer_methods_args(S, 'walk_methods')
     c15 = __import__('c15')
     c15.report(run, 'walk_methods yields every method of an interface in source order and never a constant', ok, detail, nat_bad, queries=n, bound='widths <= 2')
+
+
+def bounded_obligations(run, S, sizes, why):
+    nat = None
+    for n in sizes:
+        title = 'check_methods as a whole on every interface of %d method(s) (symbolic names, optional codes): diagnostics = the statement\'s, for every pattern of equal names / codes' % n
+        try:
+            np_, nq, bad = bounded_check_methods(S, n)
+        except mir.Unsupported as e:
+            run.inconclusive(title, 'T', ((why + '; ') if why else '') + str(e)); continue
+        run.states += np_
+        if any('unknown' in b for b in bad):
+            run.inconclusive(title, 'T', 'solver returned unknown')
+        elif bad:
+            if nat is None:
+                nat = native.sweep_c09()[1]
+            role = 'check_methods-bounded:' + ('panic' if 'panics' in bad[0] else 'diagnostics')
+            run.violated(title, 'T', role, {'examples': bad[:3], 'native': nat[:2]}, bool(nat), queries=nq, detail=bad[0][:300])
+        else:
+            run.holds(title, 'T', queries=max(1, nq), bound='exactly %d methods; %d paths' % (n, np_))
+
+
+# ---- bounded whole-function fallback ---------------------------------------------------------------------------------------------
+def reference(seq):
+    """seq = [(name class, code class or None)] -> [(category, method index, related method index or None)] as the statement prescribes"""
+    first_name, first_code = {}, {}
+    with_i = without_i = None
+    out = []
+    for i, (nm, code) in enumerate(seq):
+        if nm in first_name:
+            out.append(('duplicate-name', i, first_name[nm]))
+            continue
+        first_name[nm] = i
+        if code is not None and with_i is None and without_i is not None:
+            out.append(('mixed', i, None))
+        if code is None and without_i is None and with_i is not None:
+            out.append(('mixed', i, None))
+        if code is not None:
+            if code in first_code:
+                out.append(('duplicate-code', i, first_code[code]))
+            else:
+                first_code[code] = i
+            if with_i is None:
+                with_i = i
+        elif without_i is None:
+            without_i = i
+    return out
+
+
+def partitions(n):
+    """set partitions of range(n) as class-label tuples"""
+    def rec(k, labels, mx):
+        if k == n:
+            yield tuple(labels); return
+        for c in range(mx + 1):
+            yield from rec(k + 1, labels + [c], max(mx, c + 1 if c == mx else mx))
+    yield from rec(0, [], 0)
+
+
+def bounded_check_methods(S, n):
+    """check_methods executed as a whole (engine T, explicit HashMaps, hash order irrelevant: only get/insert/entry) on an interface of
+    exactly n methods with symbolic names and optional codes; every path is compared with the reference for EVERY pattern of
+    name / code equalities that the path condition allows.  Independent of how the function keeps its state.
+    -> (paths, queries, [problems])"""
+    import itertools
+    import zutil
+    fn = [g for g in S.prog.fns if re.search(r'(^|::)validation::check_methods$', g.name) and '::verif' not in g.name]
+    if len(fn) != 1:
+        raise mir.Unsupported('check_methods: %d candidates' % len(fn))
+    A = S.fidx
+    ex = tmir.Exec(S.prog, S.enums, S.structs, max_len=n, opaque=[r'(^|::)check_method$'])
+    ex.explicit_new = True
+    ex.auto_cells = True
+    ast, diags = ex.obj('ast', 'Aidl'), ex.obj('diags', 'Vec')
+    item = 'ast.%d' % A('Aidl', 'item')
+    elems = '%s@Interface.0.%d' % (item, A('Interface', 'elements'))
+    st = tmir.State()
+    st.lens[elems] = n
+    st.pc += [z3.Int(item + '#disc') == S.enums['Item'].index('Interface')]
+    mp = []
+    for k in range(n):
+        st.pc += [z3.Int('%s[%d]#disc' % (elems, k)) == S.enums['InterfaceElement'].index('Method')]
+        mp.append('%s[%d]@Method.0' % (elems, k))
+    ni, ci = A('Method', 'name'), A('Method', 'transact_code')
+    names = [z3.String('%s.%d' % (p, ni)) for p in mp]
+    has = [z3.Int('%s.%d#disc' % (p, ci)) for p in mp]
+    codes = [z3.Int('%s.%d@Some.0' % (p, ci)) for p in mp]
+    paths = ex.run_fn(fn[0], [ast, diags], st)
+    bad, nq = [], 0
+    for ps in ex.panics:
+        if tc.model_of(ps) is not None:
+            bad.append('check_methods panics on a %d-method interface (%s)' % (n, ps.events[-1][1] if ps.events else ''))
+    # the variables the path conditions actually use (names differ by how the engine labels leaves)
+    for s2, ret in paths:
+        if tc.model_of(s2) is None:
+            continue
+        got = []
+        for e in s2.events:
+            d = diag_of(S, e) if e[0] in ('diag', 'push') else None
+            if d is None:
+                continue
+            def midx(path):
+                for k, p in enumerate(mp):
+                    if str(path).startswith(p + '.') or str(path) == p:
+                        return k
+                return None
+            got.append((d[0], midx(d[1]), [midx(r) for r in d[2]]))
+        for plab in partitions(n):
+            for present in itertools.product((False, True), repeat=n):
+                idx = [k for k in range(n) if present[k]]
+                for clab in partitions(len(idx)):
+                    cs = []
+                    for a in range(n):
+                        for b in range(a):
+                            cs.append(names[a] == names[b] if plab[a] == plab[b] else names[a] != names[b])
+                    for k in range(n):
+                        cs.append(has[k] == (1 if present[k] else 0))
+                    for x in range(len(idx)):
+                        for y in range(x):
+                            cs.append(codes[idx[x]] == codes[idx[y]] if clab[x] == clab[y] else codes[idx[x]] != codes[idx[y]])
+                    r, _s = zutil.check(list(s2.pc) + cs, 20000); nq += 1
+                    if r == z3.unsat:
+                        continue
+                    if r != z3.sat:
+                        bad.append('solver returned unknown'); continue
+                    seq = [(plab[k], (clab[idx.index(k)] if present[k] else None)) for k in range(n)]
+                    want = reference(seq)
+                    # compare: same multiset of (method, category-compatible kind, related method); the mixed Error must sit on a range of the method that made it mixed
+                    w = sorted((i, rel) for (_c, i, rel) in want)
+                    g = sorted((i, (rels[0] if rels else None)) for (_k, i, rels) in got)
+                    w_cmp = sorted((i, rel) for (c, i, rel) in want if c != 'mixed') + sorted((i, None) for (c, i, rel) in want if c == 'mixed')
+                    g_cmp = sorted((i, r0) for (i, r0) in g if (i, r0) in [(a_, b_) for (c_, a_, b_) in want if c_ != 'mixed']) + \
+                        sorted((i, None) for (i, r0) in g if (i, r0) not in [(a_, b_) for (c_, a_, b_) in want if c_ != 'mixed'])
+                    if any(k_ != 'Error' for (k_, _i, _r) in got) or sorted(w_cmp) != sorted(g_cmp):
+                        bad.append('methods %s: diagnostics on (method, related method) %s, the statement prescribes %s' % (seq, g, [(c, i, rel) for (c, i, rel) in want]))
+                        if len(bad) > 6:
+                            return len(paths), nq, bad
+    return len(paths), nq, bad
